@@ -111,7 +111,13 @@ def run(ctx):
             n_r1 += 1
             qr = const_of(fields["qr"])
             ctx.check(qr is True, "R1", "reply:field=qr", where, "reply must be marked as a response (qr = true); it is %s" % show(strip(fields["qr"])))
-    ctx.floor("R1", "reply field obligations", n_r1, 7)
+            # the response code is twelve bits, eight of them travel in the OPT record: the reply always carries EDNS data, whether
+            # or not the client sent any (the upstream, which is always asked with EDNS, may answer BADVERS / BADCOOKIE)
+            n_r1 += 1
+            ed = norm(fields.get("edns", ("unknown",)))
+            ctx.check(ed[0] == "agg" and ed[2] == "Some", "R1", "reply:edns-always-present", where,
+                      "reply.edns must be Some(..) unconditionally (is %s): without the OPT record only rcode & 0xF reaches the client" % show(ed)[:100])
+    ctx.floor("R1", "reply field obligations", n_r1, 8)
 
     # ---------------- R1b: the error reply echoes the client's id and question too
     n = 0
@@ -123,6 +129,10 @@ def run(ctx):
             t = T.rvalue(s["rv"], bb, idx)
             fields = dict(t[3])
             where = ctx.where(body, s["sp"])
+            n += 1
+            ed = norm(fields.get("edns", ("unknown",)))
+            ctx.check(ed[0] == "agg" and ed[2] == "Some", "R1", "error-reply:edns-always-present", where,
+                      "the error reply's edns must be Some(..) unconditionally (is %s)" % show(ed)[:100])
             for f in ("qid", "question"):
                 n += 1
                 rp = resolve_path(P, body, fields[f])
